@@ -88,17 +88,19 @@ func (c *hbConn) recvLoop() {
 			continue
 		}
 
-		if err != nil {
-			c.Close()
-			return
-		}
-
+		// Hand the message to the reader together with any error the stream
+		// reported for it, so that the data is not lost; the error ends the loop
+		// only after it has been queued.
 		timer := time.NewTimer(c.timeout)
 		select {
 		case c.recvCh <- errBytes{buffer[:n], err}:
 			timer.Stop()
-			continue
 		case <-timer.C:
+			c.Close()
+			return
+		}
+
+		if err != nil {
 			c.Close()
 			return
 		}
@@ -116,22 +118,35 @@ func (c *hbConn) Write(b []byte) (n int, err error) {
 }
 
 func (c *hbConn) Read(b []byte) (int, error) {
+	// Messages that were queued before the connection closed are delivered
+	// first, in order; closed is only reported once the queue is empty.
+	select {
+	case readBytes := <-c.recvCh:
+		return readBytes.copyTo(b)
+	default:
+	}
+
 	select {
 	case <-c.closed:
-		return 0, net.ErrClosed
+		select {
+		case readBytes := <-c.recvCh:
+			return readBytes.copyTo(b)
+		default:
+			return 0, net.ErrClosed
+		}
 	case readBytes := <-c.recvCh:
-		if readBytes.err != nil {
-			return 0, readBytes.err
-		}
-
-		if len(b) < len(readBytes.b) {
-			return 0, ErrInsufficientBuffer
-		}
-
-		n := copy(b, readBytes.b)
-
-		return n, nil
+		return readBytes.copyTo(b)
 	}
+}
+
+// copyTo copies a received message into b and returns it along with the error
+// that the stream reported for it, if any.
+func (e errBytes) copyTo(b []byte) (int, error) {
+	if len(b) < len(e.b) {
+		return 0, ErrInsufficientBuffer
+	}
+
+	return copy(b, e.b), e.err
 }
 
 func (c *hbConn) BufferedAmount() uint64 {
